@@ -302,7 +302,9 @@ def run_check(prop_factory, tier):
         "repo_head": core.repo_head(),
         "explanation": prop.title,
     }
-    ev = {"property_id": pid, "tier": tier, "seed": seed, "level": prop.level, "coverage": cov,
+    level = "proof" if (obligations > 0 and discharged == obligations and getattr(prop, "force_level", None) is None) else \
+        (getattr(prop, "force_level", None) or "other")
+    ev = {"property_id": pid, "tier": tier, "seed": seed, "level": level, "coverage": cov,
           "assumptions": prop.assumptions, "wall_s": round(time.time() - t0, 2), "violations": violations}
     os.makedirs(os.path.join(core.VERIF, "evidence"), exist_ok=True)
     with open(os.path.join(core.VERIF, "evidence", f"{pid}.json"), "w") as fh:
